@@ -61,10 +61,21 @@ def default_value(kind, tshape):
 class Src:
     """deterministic value source: expands a short list of drawn integers into values of any kind/shape"""
 
-    def __init__(self, vals, tmax=5, whole=False):
+    def __init__(self, vals, tmax=5, whole=False, mode=None):
         self.v = [int(x) for x in vals] or [0]
         self.j = 0
         self.tmax = max(1, int(tmax))
+        # mode of the float values (ignored when whole numbers are asked for); every value stays a dyadic rational with few
+        # significant bits, so that storing, reading and the cell arithmetic of the scaled routes remain exact:
+        #   None    r/8
+        #   'tiny'  near-threshold values: a whole number (often 0) plus or minus 2**-e, e = 10..38 (3e-12 ... 1e-3 away from
+        #           a whole number / from zero / from the neighbouring rows)
+        #   'dec'   many decades in one argument: every row (one() call) is r/8 times its own power of two 2**d, d = -30..30
+        if mode not in (None, 'tiny', 'dec'):
+            raise ValueError(mode)
+        self.mode = mode
+        self.rowexp = 0
+        self.exps = []           # the row exponents handed out in mode 'dec' (for the labels)
         # float values are whole numbers (so that they can also be handed over integer-typed): True any whole number,
         # 'u' non-negative whole numbers (fit an unsigned dtype), 'b' 0.0 / 1.0 (fit bool)
         if whole not in (False, True, 'u', 'b'):
@@ -86,7 +97,14 @@ class Src:
                 return float(abs(r))
             if self.whole == 'b':
                 return float(r % 2)
-            return float(r) if self.whole else r / 8.0
+            if self.whole:
+                return float(r)
+            if self.mode == 'tiny':
+                r2 = self.raw()
+                return float(r % 5 - 2) + (-1.0 if r2 < 0 else 1.0) * 2.0 ** -(10 + abs(r2) % 29)
+            if self.mode == 'dec':
+                return (r / 8.0) * 2.0 ** self.rowexp
+            return r / 8.0
         if kind == 'b':
             return bool(r % 2 == 1)
         if kind == 's':
@@ -96,6 +114,9 @@ class Src:
         raise ValueError(kind)
 
     def one(self, kind, tshape):
+        if self.mode == 'dec' and kind == 'f' and not self.whole:
+            self.rowexp = self.raw() % 61 - 30
+            self.exps.append(self.rowexp)
         return nest([self.scalar(kind) for _ in range(size_of(tshape))], tshape)
 
     def many(self, kind, tshape, count):
@@ -134,7 +155,69 @@ def resolve_index(spec, n):
     if k == 'mask':
         m = [bool((spec['a'] >> j) & 1) for j in range(n)]
         return 'mask', m, [j for j in range(n) if m[j]]
+    if k == 'perm':
+        return perm_index(spec, n)
     raise ValueError(k)
+
+
+PERMS = ['identity', 'reverse', 'cyclic', 'negative', 'affine', 'halves']
+
+
+def perm_index(spec, n):
+    """exactly structured selections of ALL atoms: spec['p'] names the permutation (PERMS), spec['f'] the form it is
+    written in (list / slice / mask), spec['sh'] a shift.  Forms that cannot express the permutation fall back to the
+    closest structured one (documented next to each)."""
+    p = PERMS[spec['p'] % len(PERMS)]
+    f = spec['f']
+    sh = int(spec.get('sh', 0))
+    ident = list(range(n))
+    if f == 'mask':
+        # a mask cannot reorder: all True for every permutation but 'reverse', which stands for all False
+        m = [p != 'reverse'] * n
+        return 'mask', m, [j for j in range(n) if m[j]]
+    if f == 'slice':
+        sl = {'identity': slice(0, n), 'reverse': slice(None, None, -1), 'cyclic': slice(-n, None), 'negative': slice(-n, n, 1),
+              'affine': slice(n - 1, None, -1) if n > 1 else slice(0, 1), 'halves': slice(None, n)}[p]
+        if p == 'affine' and n > 1:
+            sl = slice(n - 1, -n - 1, -1)
+        return 'slice', sl, ident[sl]
+    if p == 'identity':
+        out = ident
+    elif p == 'reverse':
+        out = ident[::-1]
+    elif p == 'cyclic':
+        k = 1 + sh % n
+        out = [(i + k) % n for i in ident]
+    elif p == 'negative':
+        out = [i - n for i in ident]
+    elif p == 'affine':
+        a = 1 + sh % n
+        while _gcd(a, n) != 1:
+            a += 1
+        out = [(a * i + sh) % n for i in ident]
+    else:
+        h = n // 2
+        out = ident[h:] + ident[:h]
+    return 'list', out, [i if i >= 0 else n + i for i in out]
+
+
+def _gcd(a, b):
+    while b:
+        a, b = b, a % b
+    return a
+
+
+def from_array(arr, kind, tshape, count):
+    """rows (model values) of an array_like of leading length 1 or count, or a single per-atom value, cast to the model dtype
+    with numpy's assignment semantics"""
+    a = np.asarray(arr).astype(DT[kind])
+    if a.shape == tuple(tshape):
+        a = a.reshape((1,) + tuple(tshape))
+    if a.shape[0] == 1 and count != 1:
+        a = np.broadcast_to(a, (count,) + tuple(tshape))
+    flat = a.reshape(count, -1).tolist() if size_of(tshape) else []
+    conv = {'t': int, 'i': int, 'f': float, 'b': bool, 's': str}[kind]
+    return [nest([conv(x) for x in row], tuple(tshape)) for row in flat]
 
 
 class Model:
